@@ -2,15 +2,22 @@
 
    [render_tree env f t] is the model of language_ in kernel/gp/mep/i_mep.cc
    (recursive replace_all of %%k%% in argument order over the text returned
-   by display(format)); the function templates are regenerated from
+   by display(format)); the templates are regenerated from
    primitive/{real,bool,string,int}.h and function.cc on every check run
-   (coq/Gen/Templates.v).  Nothing but statements lives in this file. *)
-From Coq Require Import ZArith List Bool.
-From VV Require Import Base.F64 Mep.Genome Lang.LangBase Gen.Templates Lang.LangDefs Lang.LangProofs.
+   (coq/Gen/Templates.v).  [lex] is a maximal-munch lexer, [ast env f t] the
+   expression the program denotes (each function node = the parse of its
+   template with every placeholder replaced by the expression of the argument),
+   [toks_of] its token sequence (parentheses are explicit nodes), [wf_prec] says
+   that every operand offers the precedence its position demands, so that a
+   precedence parser regroups the tokens into exactly that tree.
+   Nothing but statements lives in this file. *)
+From Coq Require Import ZArith List Bool String.
+From VV Require Import Base.F64 Mep.Genome Lang.LangBase Gen.Templates Lang.LangDefs Lang.LangProofs
+  Lang.SynDefs Lang.SynProofs Lang.TableChecks Lang.Witness.
 Import ListNotations.
 Local Open Scope Z_scope.
 
-(* For every node of every program whose symbols have well-formed texts
+(* 1. For every node of every program whose symbols have well-formed texts
    ([good_tree]: each text splits into literal pieces without "%%" and
    placeholders %%k%%, 1 <= k <= arity, each followed by a byte that is neither
    '%' nor a digit; terminals, having arity 0, are therefore placeholder-free),
@@ -33,3 +40,79 @@ Theorem C19_render_defined_and_placeholder_free : forall env f t,
   exists txt, render_tree env f t = Some txt /\ psafe txt = true.
 Proof. exact render_good. Qed.
 Print Assumptions C19_render_defined_and_placeholder_free.
+
+(* 2. The finite check holds of the template table of the CURRENT source tree,
+   in each of the four formats (recomputed by the kernel on every run): every
+   template is well-formed, parses with the format's precedences, prints back
+   to its own tokens, demands of each placeholder no more precedence than the
+   weakest root of the table offers, has no border at which a token could form
+   with any first byte / after any final state of a node text, and is a
+   parenthesised expression whenever it starts with '('. *)
+Theorem C19_table_ok : forall f, table_ok f = true.
+Proof. exact tables_ok. Qed.
+Print Assumptions C19_table_ok.
+
+(* 3. Finite to infinite.  If the table check of a format holds then for ALL
+   programs over the shipped function classes (each used with its own arity)
+   and terminals printed as a word, a string literal without a double quote or a
+   parenthesised negative number: the printed text lexes -- no token ever forms
+   across a template / argument border -- into exactly the token sequence of
+   the program's own expression, in which every operand offers the precedence
+   its position demands and no placeholder is left. *)
+Theorem C19_table_ok_all_trees : forall f env t,
+  table_ok f = true -> good_tree env f t = true -> tree_ok env f t = true ->
+  exists txt, render_tree env f t = Some txt /\
+    lex txt = Some (toks_of (gram_of f) (ast env f t)) /\
+    wf_prec (gram_of f) (root_min f) (ast env f t) = true /\
+    holes_lt 0 (ast env f t) = true.
+Proof. exact lex_render_all_trees. Qed.
+Print Assumptions C19_table_ok_all_trees.
+
+(* 4. Printer / parser round trip -- PARTIAL.
+   Full statement (not proved):
+     forall f e, wf_prec (gram_of f) (root_min f) e = true -> holes_lt 0 e = true ->
+                 parse (gram_of f) (toks_of (gram_of f) e) = Some e
+   which with theorem 3 gives  read f (render t) = Some (ast t)  for all programs.
+   Proved: the round trip of every template of the table on its own.  The gap
+   is covered at run time: the extracted [read] is applied to every text the
+   IMPLEMENTATION prints in the correspondence and compared with [ast], and the
+   C / C++ / Python compilers are the parsers of the tie. *)
+Theorem C19_parse_pp_partial : forall f n txt, table_ok f = true -> In (n, txt) (fun_table f) ->
+  exists ts a, tlex n (segs_of txt) = Some ts /\ parse (gram_of f) ts = Some a /\
+               toks_of (gram_of f) a = ts /\ parse (gram_of f) (toks_of (gram_of f) a) = Some a.
+Proof. exact template_round_trip. Qed.
+Print Assumptions C19_parse_pp_partial.
+
+(* ---- non-vacuity: the hypotheses hold of real programs, the model computes,
+   and on them the full chain text -> tokens -> tree closes by computation *)
+Example good_and_ok :
+  forallb (fun f => good_tree env0 f t_div_sigmoid && tree_ok env0 f t_div_sigmoid &&
+                    good_tree env0 f t_cond && tree_ok env0 f t_cond) [FC; FCpp; FMql; FPy] = true.
+Proof. vm_compute. reflexivity. Qed.
+
+Example printed_c : language_tree env0 FC t_div_sigmoid = Some (bz "X1/(1 / (1 + exp(-(X1-(-3.500000)))))").
+Proof. vm_compute. reflexivity. Qed.
+Example printed_py : language_tree env0 FPy t_cond =
+  Some (bz "len(""a b"") if X1<(-3.500000) else (X1/X1)").
+Proof. vm_compute. reflexivity. Qed.
+Example printed_cpp : language_tree env0 FCpp t_cond =
+  Some (bz "X1<(-3.500000) ? double(std::string(""a b"").length()) : (X1/X1)").
+Proof. vm_compute. reflexivity. Qed.
+
+(* the printed text, read with the format's precedences, is the program's expression *)
+Example read_back :
+  forallb (fun f => match render_tree env0 f t_div_sigmoid, render_tree env0 f t_cond with
+                    | Some a, Some b =>
+                        match read f a, read f b with
+                        | Some x, Some y =>
+                            forallb2 tok_eqb (toks_of (gram_of f) x) (toks_of (gram_of f) (ast env0 f t_div_sigmoid)) &&
+                            forallb2 tok_eqb (toks_of (gram_of f) y) (toks_of (gram_of f) (ast env0 f t_cond))
+                        | _, _ => false
+                        end
+                    | _, _ => false
+                    end) [FC; FCpp; FMql; FPy] = true.
+Proof. vm_compute. reflexivity. Qed.
+
+(* the hypothesis "placeholder-free terminals" of theorem 1 is needed *)
+Example placeholder_terminal_is_excluded : good_tree env0 FC t_placeholder_name = false.
+Proof. vm_compute. reflexivity. Qed.
